@@ -374,10 +374,18 @@ def sub_threads(col, budget, seed, tier, shard, nshards):
             col.count(len(refs) - 1, "threads")
 
 
+def sub_betdaq_stream(col, budget, seed, tier, shard, nshards):
+    from .. import betdaqstream
+    from ..common import run_given as _rg
+
+    _rg(col, betdaqstream.case(), betdaqstream.check, budget, seed, tier, "betdaq_stream")
+
+
 def subchecks(tier):
     q = tier == "quick"
     return [SubCheck("references", sub_given, 2400 if q else 60000),
-            SubCheck("threads", sub_threads, 4000 if q else 50000), SubCheck("sim_runs", sub_sim, 600 if q else 20000)]
+            SubCheck("threads", sub_threads, 4000 if q else 50000), SubCheck("sim_runs", sub_sim, 600 if q else 20000),
+            SubCheck("betdaq_stream", sub_betdaq_stream, 1200 if q else 40000)]
 
 
 def replay(c, sub=None):
@@ -385,5 +393,10 @@ def replay(c, sub=None):
         return
     if c.get("sim"):
         check_sim(c)
+        return
+    if c.get("betdaq"):
+        from .. import betdaqstream
+
+        betdaqstream.check(c)
         return
     check(c)
